@@ -96,7 +96,6 @@ def graph_init(self: 'Graph', triples: 'optlist', top: 'val', epidata: 'optodict
                     and forall_idx(dict_keys(epidata), lambda i, k: dict_get(self.epidata, k) == dict_get(epidata, k))),
             label='epidata')
     ensures(implies(epidata is None, len(dict_keys(self.epidata)) == 0), label='epidata-default')
-    ensures(implies(epidata is not None, dict_eq(self.epidata, epidata)), label='epidata-copied')
     ensures(implies(metadata is not None, dict_keys(self.metadata) == dict_keys(metadata)
                     and forall_idx(dict_keys(metadata), lambda i, k: dict_get(self.metadata, k) == dict_get(metadata, k))),
             label='metadata')
